@@ -52,6 +52,14 @@ pub enum RcOp
     Race(u8),
     /// `App::setup_auto_despawn()` once more ("can be added to multiple plugins without conflict"): nothing changes
     SetupAgain,
+    /// (cases with `ReactPlugin` only) the rest of the framework is aimed at the pool entity `.0` as if it were a system
+    /// command: `.1` picks `SystemCommand::apply`, a queued `SystemCommand`, or a system event sent to it. The runner
+    /// finds no system there; it collects garbage on the way (so this counts as a collection) and must leave the
+    /// entity alone
+    Poke(u8, u8),
+    /// (cases with `ReactPlugin` only) a despawn reactor is registered on the pool entity: it gets a despawn tracker,
+    /// and the reactor runs (through the runner, which collects) at the poll after its death
+    Watch(u8),
 }
 
 thread_local!
@@ -81,6 +89,9 @@ pub struct RcCase
 {
     pub n_entities: u8,
     pub ops: Vec<RcOp>,
+    /// the app carries the whole `ReactPlugin` (which sets auto-despawn up itself) instead of `setup_auto_despawn` alone
+    #[serde(default)]
+    pub with_react: bool,
 }
 
 #[derive(Clone)]
@@ -217,10 +228,12 @@ pub struct RcOutcome
     pub classes: BTreeMap<String, u32>,
 }
 
+fn hit0(out: &mut RcOutcome, l: &str) { *out.classes.entry(l.to_string()).or_default() += 1; }
+
 fn run_inner(case: &RcCase, out: &mut RcOutcome)
 {
     let mut app = App::new();
-    app.setup_auto_despawn();
+    if case.with_react { app.add_plugins(ReactPlugin); hit0(out, "C10:with_react_plugin"); } else { app.setup_auto_despawn(); }
     let n = case.n_entities.max(1) as usize;
     let mut ents: Vec<Entity> = (0..n).map(|_| app.world_mut().spawn_empty().id()).collect();
     let mut m = Model{ alive: vec![true; n], parent: vec![None; n], prepared: vec![false; n], count: vec![0; n], doomed: vec![false; n], sigs: Vec::new(), held: vec![Vec::new(); n], either: vec![false; n], fused: vec![false; n], unknown: vec![false; n] };
@@ -369,6 +382,34 @@ fn run_inner(case: &RcCase, out: &mut RcOutcome)
                 hit(out, "C10:burst");
             }
             RcOp::SetupAgain => { app.setup_auto_despawn(); hit(out, "C10:setup_again"); }
+            RcOp::Poke(e, kind) =>
+            {
+                if !case.with_react { continue; }
+                let e = *e as usize % ents.len();
+                if m.unknown[e] { continue; }
+                let target = ents[e];
+                match kind % 3
+                {
+                    0 => SystemCommand(target).apply(app.world_mut()),
+                    1 => { app.world_mut().commands().queue(SystemCommand(target)); app.world_mut().flush(); }
+                    _ => { app.world_mut().commands().send_system_event(SystemCommand(target), 5u32); app.world_mut().flush(); }
+                }
+                // every runner call collects on entry
+                m.gc();
+                m.settle_either(&|e| app.world().get_entity(ents[e]).is_ok());
+                gcs += 1;
+                if m.alive[e] && m.count[e] > 0 { hit(out, "C10:framework_aimed_at_counted_entity"); }
+            }
+            RcOp::Watch(e) =>
+            {
+                if !case.with_react { continue; }
+                let e = *e as usize % ents.len();
+                if !m.alive[e] || m.unknown[e] { continue; }
+                let target = ents[e];
+                app.world_mut().react(|rc| { rc.on(despawn(target), || {}); });
+                app.world_mut().flush();
+                hit(out, "C10:despawn_reactor_on_counted_entity");
+            }
             RcOp::Race(k) =>
             {
                 let n = 40 * (*k as usize).clamp(1, 4);
@@ -568,11 +609,13 @@ pub fn decode(bytes: &[u8], max_ops: usize, threads: bool) -> RcCase
     let mut byte = |u: &mut Unstructured| -> u8 { u.arbitrary::<u8>().unwrap_or(0) };
     let below = |x: u8, n: usize| -> usize { if n <= 1 { 0 } else { (x as usize * n) >> 8 } };
     let mut case = RcCase::default();
-    case.n_entities = 1 + below(byte(&mut u), 5) as u8;
+    let first = byte(&mut u);
+    case.n_entities = 1 + below(first, 5) as u8;
+    case.with_react = first % 2 == 1;
     let n_ops = below(byte(&mut u), max_ops + 1);
     for _ in 0..n_ops
     {
-        let k = below(byte(&mut u), 38);
+        let k = below(byte(&mut u), 41);
         let a = byte(&mut u) % 12;
         let b = byte(&mut u) % 12;
         let op = match k
@@ -593,6 +636,8 @@ pub fn decode(bytes: &[u8], max_ops: usize, threads: bool) -> RcCase
             32 | 33 => RcOp::Burst(b),
             34 | 35 => if threads { RcOp::Race(1 + b % 4) } else { RcOp::Gc },
             36 | 37 => RcOp::SetupAgain,
+            38 | 39 => RcOp::Poke(a, b),
+            40 => RcOp::Watch(a),
             21 | 22 | 23 => RcOp::StoreOn(a, b),
             _ =>
             {
